@@ -362,12 +362,15 @@ def crash_case_ops(rng, jobs, host, brk):
         victim = rng.choice([s for s in (1, 2) if s not in others])
         inner = {"k": "load", "h": victim, "host": rng.randrange(3), "promote": True, "jobs": True}
     ops.append(crash_of(rng, inner))
-    if rng.random() < .6:
+    # after a kill INSIDE a file write the handles loaded before it (`others`) attempt writes more often: an empty version
+    # file must stop every one of them, whether its copy is older than the contents or not
+    torn = ops[-1].get("torn", False)
+    if rng.random() < (.85 if torn else .6):
         ops.append({"k": "breakMarker"})
     free = [s for s in (1, 2) if s not in others] or [1]
     for _ in range(rng.randrange(2, 8)):
         r = rng.random()
-        if r < .45 and others:
+        if r < (.6 if torn else .45) and others:
             ops.append(stale_write(rng, rng.choice(others), n, sim))
         elif r < .6:
             ops.append({"k": "load", "h": rng.choice(free), "host": rng.randrange(3), "promote": True, "jobs": True})
